@@ -29,7 +29,10 @@ def gen_scenarios(seed: int, n: int, max_msgs: int | None, kmax: int = 3):
         mode = r.choice(["solve", "solve", "min", "max"])
         cfg = problems.random_config(r, P, allow_cost=False)
         sc = {"id": len(out), "P": P, "k": k, "split_var": d, "cfg": cfg, "mode": mode,
-              "var": r.randrange(len(P["vidx"]))}
+              "var": r.randrange(len(P["vidx"])),
+              # history: the sub-solvers were used sequentially (drained / one step / optimised) BEFORE they are
+              # handed to the multiprocessing solver - a solver object can be reused, whoever calls it next
+              "used": len(out) % 3 == 1}
         out.append(sc)
     return out
 
